@@ -1,7 +1,7 @@
 use super::error;
 use super::model::{self, AsValue};
 use std::ops::Range;
-use xml_dom::{self as dom, AsExpandedName, Attr, Document, Element, Node};
+use xml_dom::{self as dom, AsExpandedName, AsNode, Attr, Document, Element, Node};
 
 pub type XPathFunc =
     dyn Fn(Vec<model::Value>, dom::XmlNode, &mut model::Context) -> error::Result<model::Value>;
@@ -543,18 +543,28 @@ fn lang(
     node: dom::XmlNode,
     _: &mut model::Context,
 ) -> error::Result<model::Value> {
-    let name = String::try_from(args.first().unwrap())?;
+    let name = String::try_from(args.first().unwrap())?.to_lowercase();
 
+    // the language of the context node: the xml:lang of the node itself or of its nearest ancestor that has one
     let mut n = Some(node);
-    while let Some(dom::XmlNode::Element(element)) = n {
-        // FIXME: namespace
-        if let Some(attr) = element.get_attribute_node("lang") {
-            if attr.value()? == name {
-                return Ok(model::Value::Boolean(true));
+    while let Some(current) = n {
+        if let dom::XmlNode::Element(element) = &current {
+            // FIXME: namespace
+            if let Some(attr) = element.get_attribute_node("lang") {
+                // the same language, ignoring case, or a sublanguage of it (en-US is a sublanguage of en)
+                let value = attr.value()?.to_lowercase();
+                let same = match value.strip_prefix(name.as_str()) {
+                    Some(rest) => rest.is_empty() || rest.starts_with('-'),
+                    None => false,
+                };
+                return Ok(model::Value::Boolean(same));
             }
         }
 
-        n = element.parent_node();
+        n = match &current {
+            dom::XmlNode::Attribute(attr) => attr.owner_element().map(|v| v.as_node()),
+            _ => current.parent_node(),
+        };
     }
 
     Ok(model::Value::Boolean(false))
